@@ -20,7 +20,7 @@ var c15Sources = []string{
 }
 
 func c15Value(r *Rng, depth int) types.MalType {
-	hard := []string{"\"", "\\", "\n", ";", "(", ")", "[", "$A", "$B", ";; $A 1", "{", "}", "¬", " ", "é", "\t", "\r\n", "{\"k\":\n1}", "{\"a\": \"¬\"}", "x", "\n;; $B 2\n", ":"}
+	hard := []string{"\"", "\\", "\n", ";", "(", ")", "[", "$A", "$B", ";; $A 1", "{", "}", "¬", " ", "é", "\t", "\r\n", "{\"k\":\n1}", "{\"a\": \"¬\"}", "x", "\n;; $B 2\n", ":", "%", "%d", "%s", "100%", "%!v(", "%%"}
 	if depth <= 0 || r.Intn(3) == 0 {
 		switch r.Intn(7) {
 		case 0:
@@ -61,7 +61,11 @@ func c15Value(r *Rng, depth int) types.MalType {
 	case 2:
 		m := map[string]types.MalType{}
 		for i := 0; i < n; i++ {
-			m[Kw(r.Pick([]string{"a", "b"}))] = c15Value(r, depth-1)
+			k := Kw(r.Pick([]string{"a", "b"}))
+			if r.Intn(3) == 0 { // string keys are printed like any string: quotes, backslashes, newlines escaped
+				k = r.Pick([]string{"k\"q", "a b", "%d", "back\\slash", "x\ny", "$A", "", "plain"})
+			}
+			m[k] = c15Value(r, depth-1)
 		}
 		return types.HashMap{Val: m}
 	default:
